@@ -94,7 +94,7 @@ HookStep(e) == LET ev == e.out.hooks[h]  p == ev.p  pt == ev.point IN
 Final(e) ==
   LET n == Len(e.procs)
       unfinished == {p \in 0..(n - 1) : phase[p] # "done"}
-      differ == {p \in 0..(n - 1) : phase[p] = "done" /\ ~e.out.results[p + 1].panic
+      differ == {p \in 0..(n - 1) : phase[p] = "done" /\ ~e.out.results[p + 1].panic /\ e.procs[p + 1].op # "corrupt"
                                      /\ (result[p] = CB!ERR) # (e.out.results[p + 1].err # "")} IN
   IF unfinished # {} THEN LET p == CHOOSE x \in unfinished : TRUE IN
        PStr(p) \o ":log-ends-where-the-model-is-at-" \o (IF phase[p] = "build" THEN CB!Top(p).pc ELSE "use")
